@@ -28,6 +28,12 @@ Ltac bool_hyps :=
   | H : Bool.eqb _ _ = true |- _ => apply eqb_prop in H
   | H : true = false |- _ => discriminate H
   | H : false = true |- _ => discriminate H
+  | H : true = true -> _ |- _ => specialize (H eq_refl)
+  | H : spc_idle ?x = true |- _ => is_var x; destruct x; try discriminate H; clear H
+  | H : kpc_idle ?x = true |- _ => is_var x; destruct x; try discriminate H; clear H
+  | H : fpc_idle ?x = true |- _ => is_var x; destruct x; try discriminate H; clear H
+  | H : match ?x with _ => _ end = true |- _ => is_var x; destruct x; try discriminate H
+  | H : match ?x with _ => _ end = false |- _ => is_var x; destruct x; try discriminate H
   end.
 
 (* take a successful step apart: one goal per (actor, event, program-counter) case, guards as hypotheses *)
@@ -41,30 +47,55 @@ Ltac inv_guard :=
   | H : (let _ := _ in _) = Some _ |- _ => cbv zeta in H
   end.
 
-Ltac step_cases H :=
-  unfold step_stream in H;
+(* s must be a variable: it is taken apart first, so that every projection computes and the case analysis on program
+   counters / device states substitutes everywhere at once *)
+Ltac step_cases s H :=
+  destruct s; unfold step_stream in H; cbn in H;
   match type of H with
   | context [match ?a with ACli => _ | _ => _ end] => destruct a
   end;
   match type of H with
   | context [match ?e with DOpenCam _ => _ | _ => _ end] => destruct e
   end;
-  try discriminate H; inv_guard; subst; bool_hyps.
+  try discriminate H; inv_guard; subst; bool_hyps; subst.
 
-(* propagate the equations produced by the case analysis (k_pc s = KTest, cam_st s = HRunning, ...) into every hypothesis *)
-Ltac rew_eqs :=
-  repeat match goal with
-  | E : ?t = _ |- _ =>
-      match t with
-      | _ ?s => is_var s; progress (rewrite E in * |-)
-      | _ (_ ?s) => is_var s; progress (rewrite E in * |-)
-      | _ (_ ?s) _ => is_var s; progress (rewrite E in * |-)
-      end
-  end.
-
-(* split the goal's conditionals *)
+(* split the goal's conditionals: variables first (so that projections of conditional states compute), then the rest *)
 Ltac split_goal_ifs :=
+  repeat (match goal with
+          | |- context [if ?b then _ else _] => is_var b; destruct b
+          | |- context [match ?x with _ => _ end] => is_var x; destruct x
+          end; cbn);
+  repeat (match goal with
+          | |- context [if ?b then _ else _] => let E := fresh "E" in destruct b eqn:E
+          | |- context [match ?x with _ => _ end] => let E := fresh "E" in destruct x eqn:E
+          end; cbn).
+
+(* a slice that equals a segment of the log lies inside the log; find_idx is at most the length *)
+Definition done_mark {A} (x : A) : Prop := True.
+Ltac seg_bounds :=
   repeat match goal with
-  | |- context [if ?b then _ else _] => let E := fresh "E" in destruct b eqn:E; try rewrite E in *
-  | |- context [match ?x with _ => _ end] => let E := fresh "E" in destruct x eqn:E; try rewrite E in *
-  end.
+  | H : ?fs = seg ?l ?a ?n |- _ =>
+      lazymatch goal with
+      | _ : done_mark H |- _ => fail
+      | _ => let B := fresh "B" in
+             pose proof (I : done_mark H);
+             try (assert (B : a + length fs <= length l) by (apply (seg_bound_gen l fs a n H); first [lia | apply find_idx_le]))
+      end
+  | _ : context [find_idx ?f ?l] |- _ =>
+      lazymatch goal with
+      | _ : done_mark (find_idx f l) |- _ => fail
+      | _ => pose proof (I : done_mark (find_idx f l)); pose proof (find_idx_le f l)
+      end
+  | |- context [find_idx ?f ?l] =>
+      lazymatch goal with
+      | _ : done_mark (find_idx f l) |- _ => fail
+      | _ => pose proof (I : done_mark (find_idx f l)); pose proof (find_idx_le f l)
+      end
+  end; cbn [length] in *.
+
+Ltac fin0 :=
+  try reflexivity; try assumption; try congruence; try lia;
+  try solve [intuition (try discriminate; try congruence; try lia)].
+Ltac fin :=
+  cbn in *; bool_hyps; subst; cbn in *; fin0;
+  try (seg_bounds; fin0).
